@@ -8,7 +8,7 @@
    instance of C18 for the documented precedences. *)
 From Coq Require Import List NArith ZArith String Arith.
 Import ListNotations.
-From PP Require Import Base Syntax Spec SpecSyn SpecNoErr SpecWf SpecTerm SpecCert Grammars Tables Pratt PrattProof JsonComplete.
+From PP Require Import Base Syntax Spec SpecSyn SpecNoErr SpecWf SpecTerm SpecCert Grammars Tables Pratt PrattProof JsonComplete JsonTestComplete JsonPrefix GrammarsCalc CalcComplete.
 
 Theorem C17_json_refs_defined :
   all_grammar (ref_defined json_grammar) json_grammar = true /\
@@ -88,9 +88,44 @@ Theorem C17_json_complete : forall v text, wf_jv v = true -> top_level v -> rend
   exists f s tree, Spec.parse json_grammar f json_grammar_start text 0 = Ok s tree /\ s_rest s = [] /\ mirrors text v tree.
 Proof. exact json_complete. Qed.
 
+(* the same for tests/grammars/json.pest (any top-level value; `json` and `value` are pairs there) *)
+Theorem C17_json_test_complete : forall v text, wf_jv v = true -> renders_doc v text ->
+  exists f s tree, Spec.parse json_test_grammar f json_test_grammar_start text 0 = Ok s tree /\
+                   s_rest s = [] /\ mirrors_t text v tree.
+Proof. exact json_test_complete. Qed.
+
+(* REJECTION OF PROPER PREFIXES: a document written without trailing whitespace is not accepted when
+   cut short anywhere. Proof (JsonPrefix.v): soundness of the grammar for a bracket/string discipline
+   (whatever `value` consumes is balanced; an accepted text is whitespace, a balanced block opening
+   with a bracket and closed by its last character, whitespace), and every proper non-empty prefix of a
+   rendering ends inside a string or with an open bracket. *)
+Theorem C17_json_prefix_rejected : forall v w1 x, wf_jv v = true -> top_level v -> ws w1 -> renders v x ->
+  forall p, proper_prefix p (w1 ++ x) ->
+  forall f s tree, Spec.parse json_grammar f json_grammar_start p 0 <> Ok s tree.
+Proof. exact json_prefix_rejected. Qed.
+
+(* THE CALCULATOR GRAMMAR (examples/calculator/calculator.pest, regenerated into GrammarsCalc.v on every run)
+   turns every well-formed expression text into exactly its token stream — int / ident / neg / fac /
+   add..pow pairs and nested `expr` pairs for groups, in order, slices equal to the token texts, with
+   whitespace (blank, tab, newline) anywhere between tokens — and the Pratt parser then consumes that
+   whole stream and builds the canonical tree, for ANY operator table (CalcComplete.v + PrattProof.v) *)
+Theorem C17_calc_grammar_complete : forall ts text, wf_ctoks ts = true -> crenders_doc ts text ->
+  exists f s tree, Spec.parse calc_grammar f calc_grammar_start text 0 = Ok s tree /\ s_rest s = [] /\ cmirrors text ts tree.
+Proof. exact calc_complete. Qed.
+
+Theorem C17_calc_end_to_end : forall tb ts text, wf_ctoks ts = true -> crenders_doc ts text ->
+  exists f s ptree sl kids, Spec.parse calc_grammar f calc_grammar_start text 0 = Ok s ptree /\ s_rest s = [] /\
+    map (skel text) ptree = [SK 21 text [SK 10 sl kids; SK 3 [] []]] /\ toks_of kids = ptoks ts /\
+    exists f' t, Pratt.parse_expr tb f' (toks_of kids) 0 = Some (t, []) /\ canon tb 0 t /\ yield t = toks_of kids.
+Proof. exact calc_end_to_end. Qed.
+
 Print Assumptions C17_json_refs_defined.
 Print Assumptions C17_json_never_stuck.
 Print Assumptions C17_json_tree_wellformed.
 Print Assumptions C17_json_terminates.
 Print Assumptions C17_calc_tree_canonical.
 Print Assumptions C17_json_complete.
+Print Assumptions C17_json_test_complete.
+Print Assumptions C17_json_prefix_rejected.
+Print Assumptions C17_calc_grammar_complete.
+Print Assumptions C17_calc_end_to_end.
